@@ -447,11 +447,23 @@ def check_container_marks(P, ctx):
         else:
             ctx.proved(rule, fname, s, 'the traversal covers the full element set and hands every %s to the callback (%d instances evaluated)' % (
                 'key and value' if accs and len(accs) == 2 else 'element', ncase))
+    # a List is marked correctly not only between operations but wherever an operation hands control to outside code (assign, a
+    # destructor, the other iterable's cursor functions): those can allocate, and an allocation can start a collection
+    from . import seqmodel
+    fnm = P.fn(P.slot('List', 'Mark', 'mark'))
+    res = seqmodel.list_ops(P, 'List')
+    probs = [seqmodel.MARKS.get((id(P), op)) for op in res if seqmodel.MARKS.get((id(P), op))]
+    unsupl = [v[2] for v in res.values() if v[2]]
+    if unsupl and not probs:
+        ctx.undecided(rule, 'List:mid-operation', site(fnm), 'the List operations leave the evaluated fragment: ' + unsupl[0])
+    else:
+        ctx.check(not probs, rule, 'List:mid-operation', site(fnm), 'evaluated inside push, pop, push_at, pop_at, rem, resize and concat at every call to outside code: the Mark instance '
+                  'hands every node that is linked at that moment to the collector, whatever the count field says there', probs[:1] if probs else None)
     # every container type that stores Cello objects declares a Mark instance (otherwise it is scanned conservatively,
     # which only sees the container's own struct, not its heap storage)
     for T in ('Array', 'List', 'Table', 'Tree', 'Tuple'):
         ctx.check(P.slot(T, 'Mark', 'mark', required=False) is not None, rule, T + ':declares-Mark', 'src/%s.c' % T, '%s declares a Mark instance' % T)
-    ctx.floor(rule, 11)
+    ctx.floor(rule, 12)
 
 
 def check_sweep_and_cycle(P, ctx):
